@@ -82,6 +82,7 @@ def gen_case(seed, tier):
             if victim['op'] == 'snapshot':
                 victim['files'] = dict(victim['files'])
                 victim['files'][paths[0]] = 0
+    pre['step_budget'] = 300_000 if tier == 'quick' else 3_000_000
     return pre
 
 
@@ -341,7 +342,12 @@ def run_case(case):
             # one snapshot object temporarily cannot be read (download fails, exists denies it) although it is still listed
             for loc in sorted(k for k in fork.state0.objects if k.startswith('snapshots/'))[:4]:
                 plan.append(('unavail', loc, None))
+        # fault points in seeded order, until the case's work budget (simulated scheduler steps: deterministic) is used up
+        substream(case['sample_seed'], 'plan-order').shuffle(plan)
         for fault in plan:
+            if H.W.sim_steps > case.get('step_budget', 10**9):
+                H.probe('fault_points_cut_by_step_budget')
+                break
             fork.restore()
             before = dict(H.W.state.objects)
             if local is not None:
